@@ -248,8 +248,10 @@ class Prop:
         'harness/hx-enc builds Message values through the public constructors and public fields of rustybgp-packet (Attribute::new_with_value / '
         'new_with_bin / new_opaque, Notification::from_notification, RouteDistinguisher::decode, NLRI structs); long buffers are compared through '
         '(length, Fletcher-style digest), buffers up to 256 bytes byte for byte',
-        'IPv6 Flowspec prefix components are written (and read back, by the code and by the Spec reader) as ceil(length / 8) octets from bit 0; '
-        'RFC 8956 3.1 counts the pattern from the offset: identical for offset 0, self-consistent otherwise (outside the property text)',
+        'IPv6 Flowspec prefix components with a non-zero offset: the code writes (and its decoder and the Coq reader Spec/WireReadFam.v read back) '
+        'ceil(length / 8) octets from bit 0, RFC 8956 3.1 lays out the length - offset bits after the offset. The Coq theorems hold for that layout '
+        '(identical to the RFC for offset 0 only); the python oracle judges by RFC 8956 and reports the difference on every run as the open finding '
+        'C04-fs6-prefix-offset (known_findings.json, corpus/C04/fs6-prefix-offset.json)',
     ]
     assumptions = [
         'the family of a Reach/Unreach is one both sides announced, and the kind of every NLRI is the one of the family (what the export path builds)',
